@@ -412,8 +412,10 @@ def main():
     out.append("use embedded_cli::service::{FromRaw, ParseError};")
     out.append("use embedded_cli::{Command, CommandGroup};")
     out.append("")
-    out.append("use crate::app::{step_with, App, RawSet, SetDef, SetMeta, SimCli};")
-    out.append("use crate::sink::SimErr;")
+    out.append("use embedded_cli::cli::CliHandle;")
+    out.append("")
+    out.append("use crate::app::{step_raw_processor, step_with, App, RawSet, SetDef, SetMeta, SimCli};")
+    out.append("use crate::sink::{SimErr, Sink};")
     out.append("")
     out.append(f"pub const FAMILY_SEED: u64 = {seed};")
     out.append("")
@@ -449,6 +451,12 @@ def main():
         out.append("    }")
         out.append("}")
         out.append("")
+        ty_ = f"{t.ident}{'<' + chr(39) + '_>' if lt else ''}"
+        out.append(f"fn step_derived_{t.ident}(cli: &mut SimCli<'_>, b: u8, app: &mut App) -> Result<(), SimErr> {{")
+        out.append(f"    let mut p = {t.ident}::processor(|h: &mut CliHandle<'_, Sink, SimErr>, cmd: {ty_}| app.handle_typed(h, format!(\"{{:?}}\", cmd)));")
+        out.append(f"    cli.process_byte::<{ty_}, _>(b, &mut p)")
+        out.append("}")
+        out.append("")
 
     out.append("pub static SETS: &[SetMeta] = &[")
     out.append('    SetMeta { ident: "Raw", names: &[], grouped: false, lines: &["raw 1 2", "x", "cmd \\"a b\\" -f --long -- -v", "help", "help x", "x --help", "a -h b"] },')
@@ -466,11 +474,13 @@ def main():
         out.append("    },")
     out.append("];")
     out.append("")
-    out.append("pub fn step(set: usize, cli: &mut SimCli, b: u8, app: &mut App) -> Result<(), SimErr> {")
-    out.append("    match set {")
-    out.append("        0 => step_with::<RawSet>(cli, b, app),")
+    out.append("pub fn step(set: usize, derived: bool, cli: &mut SimCli<'_>, b: u8, app: &mut App) -> Result<(), SimErr> {")
+    out.append("    match (set, derived) {")
+    out.append("        (0, false) => step_with::<RawSet>(cli, b, app),")
+    out.append("        (0, true) => step_raw_processor(cli, b, app),")
     for i, t in enumerate(tops):
-        out.append(f"        {i + 1} => step_with::<D{t.ident}>(cli, b, app),")
+        out.append(f"        ({i + 1}, false) => step_with::<D{t.ident}>(cli, b, app),")
+        out.append(f"        ({i + 1}, true) => step_derived_{t.ident}(cli, b, app),")
     out.append('        _ => panic!("harness: no such command set"),')
     out.append("    }")
     out.append("}")
